@@ -89,7 +89,7 @@ class Pipeline(Machine):
                 ops.append({"kind": "create", "i": i, "desc": d, "gen": s.u64() % (1 << 48), "features": feats,
                             "size": s.randint(0, 3), "payloads": s.randint(0, 3), "dep_depth": s.choice([0, 0, 1, 2, 3]),
                             "dep_form": s.choice(["inline", "path", "mixed"]), "fmt": s.choice(["yaml", "json"]),
-                            "entry": s.choice(["cli", "cli", "lib", "obj"]), "out": out})
+                            "entry": s.choice(["cli", "cli", "lib", "obj"]), "out": out, "dirty": s.choice(self.DIRTY_VARIANTS)})
                 arts.append(out)
             elif r < 0.50:
                 ops.append({"kind": "hsign", "i": i, "src": s.choice(arts), "out": f"a{i}", "alg": s.choice(["es-256", "eddsa", "es-384"]),
@@ -384,6 +384,8 @@ class Pipeline(Machine):
                 vs.append(violation("C05", "dependency-embedded-identically", op["i"],
                                     f"dependency {dname} ({de['form']}) embedded as {None if members.get(dname) is None else len(members[dname])} "
                                     f"bytes, created alone it has {len(de['alone'])} bytes (or differs in content)"))
+        if not vs and op["entry"] != "obj":
+            vs = self.dirty_rerun(host, model, "C05", op, [out_rel], lambda: run(()), "envelope-describes-files-exactly")
         return vs
 
     def _expected_params(self, host, model, desc, refs, dep_exp):
